@@ -10,6 +10,7 @@ trilinear scheme).
 from __future__ import annotations
 
 import math
+import os
 import random
 import shutil
 import tempfile
@@ -53,8 +54,17 @@ def required(tier):
                         'heading:diagonal', 'heading:generic', 'azimuth:explicit',
                         'azimuth:from-track-point', 'history:same-hour-different-date',
                         'history:missing-day-retried-then-file-arrives',
-                        'data-dir:percent-sign-in-path'],
+                        'data-dir:percent-sign-in-path',
+                        'date:iso-week-year-differs-from-calendar-year',
+                        'data-dir:relative-path'],
             'evaluations': 800}
+
+
+def _day64(path):
+    import numpy as np
+    from pathlib import Path as _P
+    st = _P(path).stem
+    return np.datetime64(f'{st[:4]}-{st[4:6]}-{st[6:8]}T00:00')
 
 
 class Field:
@@ -94,7 +104,7 @@ def write_file(path: Path, fld: Field, rng):
         hours = np.arange(24)
         u = np.stack([fld.uv(P, LA, LO, h)[0] * np.ones_like(P) for h in hours])
         v = np.stack([fld.uv(P, LA, LO, h)[1] * np.ones_like(P) for h in hours])
-        times = np.datetime64('2024-03-05T00:00') + hours * np.timedelta64(1, 'h')
+        times = _day64(path) + hours * np.timedelta64(1, 'h')
         dims = ('valid_time', 'pressure_level', 'latitude', 'longitude')
         coords = {'valid_time': times, 'pressure_level': levels, 'latitude': lats,
                   'longitude': lons}
@@ -122,7 +132,7 @@ def write_file_same_grid(path, fld, lat_lo, lat_hi, lon_lo, lon_hi):
     hours = np.arange(24)
     u = np.stack([fld.uv(P, LA, LO, h)[0] * np.ones_like(P) for h in hours])
     v = np.stack([fld.uv(P, LA, LO, h)[1] * np.ones_like(P) for h in hours])
-    times = np.datetime64('2024-03-06T00:00') + hours * np.timedelta64(1, 'h')
+    times = _day64(path) + hours * np.timedelta64(1, 'h')
     dims = ('valid_time', 'pressure_level', 'latitude', 'longitude')
     ds = xr.Dataset({'u': (dims, u), 'v': (dims, v), 't': (dims, np.full_like(u, 250.0))},
                     coords={'valid_time': times, 'pressure_level': levels, 'latitude': lats,
@@ -176,6 +186,8 @@ def run_shard(spec, rec):
         raise Mismatch(f'ground speed differs from |air + wind| ({what})',
                        {'got': got, 'expected': correct, 'check': what, **case})
 
+    cwd0 = os.getcwd()
+    outside = Path(tempfile.mkdtemp(prefix='c16-cwd-'))
     try:
         ks = [spec['only']] if 'only' in spec else range(spec['n'])
         for k in ks:
@@ -185,17 +197,36 @@ def run_shard(spec, rec):
             fld = Field(rng, kind, timed)
             # directory names a user may have: plain, URL-encoded blank, strftime-like, percent
             dname = [f'w{k}', f'ERA5%20data{k}', f'%Y%m%d_{k}', f'100%_{k}', f'w {k} b'][k % 5]
-            d = hdir / dname
+            # (one case in four: under a working directory that is NOT on the AEIC search path,
+            # and given to Weather relative to it)
+            d = (outside if k % 4 == 2 else hdir) / dname
             d.mkdir()
             if '%' in dname:
                 rec.cls('data-dir:percent-sign-in-path')
-            lat_lo, lat_hi, lon_lo, lon_hi, p_lo, p_hi = write_file(d / '20240305.nc', fld, rng)
-            wx = Weather(d)
+            # calendar corners included: ISO week-year differs from the calendar year on
+            # 30/31 Dec 2024 and 1-3 Jan 2027; leap day; year end
+            import datetime as _dt
+            base_day = rng.choice([_dt.date(2024, 3, 5), _dt.date(2024, 3, 5), _dt.date(2024, 12, 30),
+                                   _dt.date(2027, 1, 1), _dt.date(2024, 2, 28),
+                                   _dt.date(2021, 1, 2), _dt.date(2025, 12, 28)])
+            D0, D1, D4 = (base_day + _dt.timedelta(days=o_) for o_ in (0, 1, 4))
+            F0, F1, F4 = (x.strftime('%Y%m%d') for x in (D0, D1, D4))
+            I0, I1, I4 = (x.isoformat() for x in (D0, D1, D4))
+            if base_day.isocalendar()[0] != base_day.year or D1.isocalendar()[0] != D1.year:
+                rec.cls('date:iso-week-year-differs-from-calendar-year')
+            lat_lo, lat_hi, lon_lo, lon_hi, p_lo, p_hi = write_file(d / f'{F0}.nc', fld, rng)
+            if k % 4 == 2:
+                # the data directory given relative to the current working directory
+                os.chdir(outside)
+                wx = Weather(Path(dname))
+                rec.cls('data-dir:relative-path')
+            else:
+                wx = Weather(d)
             rec.cls(f'field:{kind}', 'time-axis:' + ('yes' if timed else 'no'))
             try:
                 for q in range(6):
                     hour = rng.randint(0, 23)
-                    t = pd.Timestamp(f'2024-03-05T{hour:02d}:{rng.randint(0, 59):02d}:00Z')
+                    t = pd.Timestamp(f'{I0}T{hour:02d}:{rng.randint(0, 59):02d}:00Z')
                     lat = rng.uniform(lat_lo, lat_hi)
                     lon = rng.uniform(lon_lo, lon_hi)
                     p = rng.uniform(p_lo, p_hi)
@@ -239,7 +270,7 @@ def run_shard(spec, rec):
                     if timed and fld.cu[4] != 0:
                         # a different hour must give the other hour's field
                         h2 = (hour + rng.randint(1, 23)) % 24
-                        t2 = pd.Timestamp(f'2024-03-05T{h2:02d}:30:00Z')
+                        t2 = pd.Timestamp(f'{I0}T{h2:02d}:30:00Z')
                         u2, v2 = fld.uv(p, lat, lon, h2)
                         got2 = query(wx, t2, lat, lon, alt, tas, 45.0, explicit)
                         judge(got2, tas, 45.0, u2, v2, 'hour selection (heading 45: '
@@ -250,7 +281,7 @@ def run_shard(spec, rec):
                     u, v = fld.uv(500, 0, 0, 0)
                     W = math.hypot(u, v)
                     wind_to = math.degrees(math.atan2(u, v)) % 360   # direction wind blows TO
-                    t = pd.Timestamp('2024-03-05T10:00:00Z')
+                    t = pd.Timestamp(f'{I0}T10:00:00Z')
                     lat, lon, alt, tas = ((lat_lo + lat_hi) / 2, (lon_lo + lon_hi) / 2,
                                           h_of_p(500), 120.0 + W)
                     case = {'k': k, 'field': kind, 'u': u, 'v': v, 'tas': tas,
@@ -279,7 +310,7 @@ def run_shard(spec, rec):
                     f2.cv = (-u * math.sin(dr) + v * math.cos(dr), 0, 0, 0, 0)
                     d2 = hdir / f'w{k}r'
                     d2.mkdir()
-                    b2 = write_file(d2 / '20240305.nc', f2, rng)
+                    b2 = write_file(d2 / f'{F0}.nc', f2, rng)
                     wx2 = Weather(d2)
                     hd0 = rng.uniform(0, 360)
                     g1 = query(wx, t, lat, lon, alt, tas, hd0, True)
@@ -297,11 +328,11 @@ def run_shard(spec, rec):
                 # ---- one Weather object, same hour of day on two different dates -------------
                 if timed:
                     fld_b = Field(rng, 'uniform', True)
-                    write_file_same_grid(d / '20240306.nc', fld_b, lat_lo, lat_hi, lon_lo, lon_hi)
+                    write_file_same_grid(d / f'{F1}.nc', fld_b, lat_lo, lat_hi, lon_lo, lon_hi)
                     hour = rng.randint(0, 23)
                     la, lo_ = (lat_lo + lat_hi) / 2, (lon_lo + lon_hi) / 2
-                    for day, f in (('05', fld), ('06', fld_b), ('05', fld), ('06', fld_b)):
-                        tq = pd.Timestamp(f'2024-03-{day}T{hour:02d}:10:00Z')
+                    for day, f in ((I0, fld), (I1, fld_b), (I0, fld), (I1, fld_b)):
+                        tq = pd.Timestamp(f'{day}T{hour:02d}:10:00Z')
                         uq, vq = f.uv(500.0, la, lo_, hour)
                         gq = query(wx, tq, la, lo_, h_of_p(500.0), 180.0, 45.0, True)
                         judge(gq, 180.0, 45.0, uq, vq, 'same Weather object, same hour, '
@@ -311,8 +342,8 @@ def run_shard(spec, rec):
                 # ---- one Weather object: a day whose file is missing, retried, file arrives ----
                 la, lo_ = (lat_lo + lat_hi) / 2, (lon_lo + lon_hi) / 2
                 hour = rng.randint(0, 23)
-                t_ok = pd.Timestamp(f'2024-03-05T{hour:02d}:20:00Z')
-                t_missing = pd.Timestamp(f'2024-03-09T{hour:02d}:20:00Z')
+                t_ok = pd.Timestamp(f'{I0}T{hour:02d}:20:00Z')
+                t_missing = pd.Timestamp(f'{I4}T{hour:02d}:20:00Z')
                 u0, v0 = fld.uv(500.0, la, lo_, hour if timed else 0)
                 g0 = query(wx, t_ok, la, lo_, h_of_p(500.0), 170.0, 45.0, True)
                 judge(g0, 170.0, 45.0, u0, v0, 'before a missing day (heading 45)', {'k': k})
@@ -329,7 +360,7 @@ def run_shard(spec, rec):
                     except Exception:  # noqa: BLE001
                         pass
                 fld_c = Field(rng, 'uniform', timed)
-                write_file_same_grid(d / '20240309.nc', fld_c, lat_lo, lat_hi, lon_lo, lon_hi)
+                write_file_same_grid(d / f'{F4}.nc', fld_c, lat_lo, lat_hi, lon_lo, lon_hi)
                 uc, vc = fld_c.uv(500.0, la, lo_, hour if timed else 0)
                 gc_ = query(wx, t_missing, la, lo_, h_of_p(500.0), 170.0, 45.0, True)
                 judge(gc_, 170.0, 45.0, uc, vc, 'same time stamp after its weather file arrived '
@@ -339,7 +370,7 @@ def run_shard(spec, rec):
                       '(heading 45)', {'k': k})
                 rec.cls('history:missing-day-retried-then-file-arrives')
                 # ---- refusals outside the domain --------------------------------------------
-                t = pd.Timestamp('2024-03-05T10:00:00Z')
+                t = pd.Timestamp(f'{I0}T10:00:00Z')
                 mid = ((lat_lo + lat_hi) / 2, (lon_lo + lon_hi) / 2, h_of_p(500.0))
                 outs = [('lat', (lat_hi + rng.uniform(0.01, 20), mid[1], mid[2])),
                         ('lat', (lat_lo - rng.uniform(0.01, 20), mid[1], mid[2])),
@@ -365,6 +396,7 @@ def run_shard(spec, rec):
                 rec.violation(m.mechanism, m.detail,
                               {'spec': {'seed': spec['seed'], 'n': spec['n']}, 'k': k})
             finally:
+                os.chdir(cwd0)
                 if wx._main_ds is not None:
                     wx._main_ds.close()
                 shutil.rmtree(d, ignore_errors=True)
@@ -372,3 +404,4 @@ def run_shard(spec, rec):
     finally:
         Config.reset()
         shutil.rmtree(hdir, ignore_errors=True)
+        shutil.rmtree(outside, ignore_errors=True)
